@@ -38,8 +38,8 @@ Proof. cbn. repeat split; try constructor; cbn; intuition; try discriminate; rep
 (* Make: for every step of a shape the builtins create and each of its outputs, the prerequisites of the rule that
    carries the recipe (through the stamp for a multi-output step; order-only .dir sentinels and internal names
    dropped) are, as a set, what the step consumes *)
-Theorem C03_deps_exact_make : forall st rs o,
-  shape_ok st = true -> emit_make_step st = Some rs -> In o (outs st) ->
+Theorem C03_deps_exact_make : forall fx st rs o,
+  shape_ok st = true -> emit_make_step fx st = Some rs -> In o (outs st) ->
   exists l, make_prereqs rs o = Some l /\ set_eq l (consumed st).
 Proof. exact deps_exact_make. Qed.
 Print Assumptions C03_deps_exact_make.
@@ -77,8 +77,8 @@ Theorem C03_members : forall sc,
 Proof. intros sc. split; [exact (members_make sc)|intros has; exact (members_ninja sc has)]. Qed.
 Print Assumptions C03_members.
 
-Theorem C03_members_alias : forall st rs o has,
-  s_kind st = KAlias -> emit_make_step st = Some rs -> In o (outs st) ->
+Theorem C03_members_alias : forall fx st rs o has,
+  s_kind st = KAlias -> emit_make_step fx st = Some rs -> In o (outs st) ->
   make_prereqs rs o = Some (s_extra_deps st) /\
   ninja_prereqs (fst (emit_ninja_step has st)) o = Some (s_extra_deps st).
 Proof. exact members_alias. Qed.
@@ -96,9 +96,9 @@ Print Assumptions C03_install_in_default.
    After a successful build, a second build runs nothing, and after touching x exactly the steps downstream of x in
    the SCRIPT's own dependency relation (script_down: defined on consumed, not on the emitted rules) run, in order.
    Guard (see C03_stamp_consumers_refuted): no multi-output step. *)
-Theorem C03_rebuild_exact : forall steps f clk x,
+Theorem C03_rebuild_exact : forall fx steps f clk x,
   wf_script steps -> fs_below f clk ->
-  let rs := sem_steps steps in
+  let rs := sem_steps fx steps in
   let s1 := build rs f clk in
   b_fail s1 = None ->
   b_log (build rs (b_fs s1) (b_clk s1)) = [] /\
@@ -108,7 +108,8 @@ Proof. exact rebuild_exact. Qed.
 Print Assumptions C03_rebuild_exact.
 
 (* the rules the theorem speaks about are the emitted ones *)
-Theorem C03_rebuild_rules : forall steps rs, emit_make_steps steps = Some rs -> sem_rules rs = sem_steps steps.
+Theorem C03_rebuild_rules : forall fx steps rs,
+  emit_make_steps fx steps = Some rs -> sem_rules rs = sem_steps fx steps.
 Proof. exact sem_steps_emit. Qed.
 Print Assumptions C03_rebuild_rules.
 
@@ -118,12 +119,12 @@ Definition ex_pch : step :=
   mkStep KCompile [mkOut 10 1; mkOut 11 1] (Some 1) (Some 2) (Some 3) [4; 5] [6] [7] [] [] [] [8] false true.
 Example ex_pch_make :
   shape_ok ex_pch = true /\
-  emit_make_step ex_pch =
-    Some [mkM [NF 10; NF 11] [NStamp 10] [] false false;
-          mkM [NStamp 10] [NF 2; NF 1; NF 3; NF 4; NF 5; NF 6; NF 7; NF 8] [NDir 1] true false] /\
-  (forall rs, emit_make_step ex_pch = Some rs -> make_prereqs rs 11 = Some [2; 1; 3; 4; 5; 6; 7; 8]) /\
+  (forall fx, emit_make_step fx ex_pch =
+    Some [mkM [NF 10; NF 11] [NStamp 10] [] fx false;
+          mkM [NStamp 10] [NF 2; NF 1; NF 3; NF 4; NF 5; NF 6; NF 7; NF 8] [NDir 1] true false]) /\
+  (forall fx rs, emit_make_step fx ex_pch = Some rs -> make_prereqs rs 11 = Some [2; 1; 3; 4; 5; 6; 7; 8]) /\
   consumed ex_pch = [2; 1; 3; 4; 5; 6; 7; 8].
-Proof. repeat split. intros rs E. vm_compute in E. injection E as <-. reflexivity. Qed.
+Proof. repeat split. intros fx rs E. vm_compute in E. injection E as <-. reflexivity. Qed.
 
 Example ex_pch_ninja :
   NoDup (outs ex_pch) /\
@@ -154,7 +155,7 @@ Definition ex_steps : list step :=
    mkStep KCopyFile [mkOut 13 2] (Some 12) None None [] [] [] [] [] [] [] false false].
 Example ex_rebuild :
   wf_script ex_steps /\ script_down 1 ex_steps = [10; 12; 13] /\ script_down 3 ex_steps = [11; 12; 13] /\
-  script_down 12 ex_steps = [13] /\ wfb (sem_steps ex_steps) = true.
+  script_down 12 ex_steps = [13] /\ wfb (sem_steps false ex_steps) = true.
 Proof.
   repeat split; try (repeat constructor; cbn; intuition discriminate).
   all: cbn; intros p H; intuition (subst; discriminate).
@@ -199,9 +200,9 @@ Proof. exact stamp_consumers_refuted. Qed.
 Print Assumptions C03_stamp_consumers_refuted.
 
 (* the example rules are what the Make emitter produces for that script (nodes 10 11 = outputs, 12 = the stamp) *)
-Example ex_stamp_is_emitted :
-  emit_make_step (mkStep KBuildStep [mkOut 10 0; mkOut 11 0] None None None [] [] [] [1] [] [] [] false false) =
-    Some [mkM [NF 10; NF 11] [NStamp 10] [] false false; mkM [NStamp 10] [NF 1] [] true false].
+Example ex_stamp_is_emitted : forall fx,
+  emit_make_step fx (mkStep KBuildStep [mkOut 10 0; mkOut 11 0] None None None [] [] [] [1] [] [] [] false false) =
+    Some [mkM [NF 10; NF 11] [NStamp 10] [] fx false; mkM [NStamp 10] [NF 1] [] true false].
 Proof. reflexivity. Qed.
 
 Example ex_stamp_equiv_nonvacuous :
